@@ -23,7 +23,6 @@ import (
 	"encoding/binary"
 	"encoding/json"
 	"fmt"
-	"runtime"
 	"sort"
 	"strconv"
 	"strings"
@@ -1522,11 +1521,6 @@ func samples(r *mc.Run) {
 func Run(r *mc.Run) {
 	old := collector.PreAllocSizeSkipCap
 	defer func() { collector.PreAllocSizeSkipCap = old }()
-
-	// the enumeration allocates a DocumentMatch pool per collector run and has next to no live
-	// heap: without a floor the collector would run thousands of tiny GC cycles per second
-	ballast := make([]byte, 384<<20)
-	defer runtime.KeepAlive(ballast)
 
 	nspecA := 0
 	for _, f := range families(r, 1000) {
